@@ -1887,6 +1887,8 @@ struct ReportDataResponder<'a, 'b, 'c, const NE: usize, C> {
     invoker: HandlerInvoker<'b, 'c, C>,
     event_reader: EventReader,
     events: &'a Events<NE>,
+    /// How much of `LONG_READS_TLV_RESERVE_SIZE` is still set aside in the reply being built
+    reserved: usize,
 }
 
 impl<'a, 'b, 'c, const NE: usize, C> ReportDataResponder<'a, 'b, 'c, NE, C>
@@ -1911,6 +1913,7 @@ where
             invoker,
             event_reader,
             events,
+            reserved: 0,
         }
     }
 
@@ -2034,6 +2037,7 @@ where
                 }
             }
 
+            self.unreserve(wb, 1)?;
             wb.end_container()?;
         }
 
@@ -2052,6 +2056,7 @@ where
         let accessor = self.invoker.exchange().accessor(&metadata)?;
 
         if let Some(event_reqs) = self.req.event_requests()? {
+            self.unreserve(wb, 2)?;
             wb.start_array(&TLVTag::Context(ReportDataRespTag::EventReports as _))?;
 
             // Validate concrete event paths against node metadata
@@ -2138,6 +2143,7 @@ where
                 }
             }
 
+            self.unreserve(wb, 1)?;
             wb.end_container()?;
         }
 
@@ -2306,9 +2312,10 @@ where
     }
 
     /// Start a reply by initializing the `WriteBuf` and writing the initial TLVs.
-    fn start_reply(&self, wb: &mut WriteBuf<'_>) -> Result<(), Error> {
+    fn start_reply(&mut self, wb: &mut WriteBuf<'_>) -> Result<(), Error> {
         wb.reset();
         wb.shrink(Self::LONG_READS_TLV_RESERVE_SIZE)?;
+        self.reserved = Self::LONG_READS_TLV_RESERVE_SIZE;
 
         wb.start_struct(&TLVTag::Anonymous)?;
 
@@ -2328,14 +2335,26 @@ where
         Ok(())
     }
 
+    /// Make `size` bytes of the space reserved for the closing TLVs available for writing.
+    ///
+    /// The TLVs which open and close the report arrays are written between the reported items
+    /// and are part of what the space is reserved for: the items might have filled everything else.
+    fn unreserve(&mut self, wb: &mut WriteBuf<'_>, size: usize) -> Result<(), Error> {
+        wb.expand(size)?;
+        self.reserved -= size;
+
+        Ok(())
+    }
+
     /// End a reply by writing the closing TLVs and potentially indicating that there are more chunks to send.
     fn end_reply(
-        &self,
+        &mut self,
         state: ReportDataChunkState,
         suppress_resp: bool,
         wb: &mut WriteBuf<'_>,
     ) -> Result<(), Error> {
-        wb.expand(Self::LONG_READS_TLV_RESERVE_SIZE)?;
+        let reserved = self.reserved;
+        self.unreserve(wb, reserved)?;
 
         match state {
             ReportDataChunkState::ChunkingAttributes | ReportDataChunkState::ChunkingEvents => {
